@@ -402,7 +402,7 @@ Definition reannounce_ok (log : list (client * list request)) : Prop :=
 Definition witness_r : bytes := [Byte.x72].   (* "r" *)
 Definition witness_a : bytes := [Byte.x61].   (* "a" *)
 Definition witness_history : list cevent :=
-  [CReconnect witness_a; CRegisterResource witness_r; CConnLost true; CReconnect witness_a].
+  [CReconnect witness_a true; CRegisterResource witness_r; CConnLost true; CReconnect witness_a true].
 
 (* the full statement is FALSE for the code as it is: one resource, one reconnect *)
 Theorem reannounce_refuted :
@@ -410,7 +410,7 @@ Theorem reannounce_refuted :
 Proof.
   exists witness_history. intro H.
   specialize (H {| cl_resources := [witness_r]; cl_cur := None;
-                   cl_server := [(witness_a, 1)]; cl_all := 0 |} [RegisterTM]).
+                   cl_server := [(witness_a, 1)]; cl_all := 0; cl_tm := false |} [RegisterTM]).
   cbn in H. assert (false = true) by (apply H; right; now left). discriminate.
 Qed.
 
@@ -423,7 +423,7 @@ Proof.
   destruct e; cbn in E.
   - inversion E; subst; auto.
   - destruct (cl_cur c); inversion E; subst; auto.
-  - inversion E; subst. destruct H as [H|H]; [now inversion H|auto].
+  - destruct write_ok; inversion E; subst; auto. destruct H as [H|H]; [now inversion H|auto].
 Qed.
 
 (* strongest true statement, over ALL histories (connections lost with the session
@@ -448,3 +448,35 @@ Lemma stale_entry_stays c a :
   cl_cur c = Some a ->
   cnt_of (cl_server (fst (cstep c (CConnLost true)))) a = cnt_of (cl_server c) a.
 Proof. intro H. cbn. now rewrite H. Qed.
+
+(* every REGISTERED open session has had RegisterTM written on it successfully: after
+   any history (connections lost in either way, reconnects to any address, failed
+   first writes on a fresh connection) a connected client is an announced client *)
+Definition announced_inv (c : client) : Prop := cl_connected c = true -> cl_tm c = true.
+
+Lemma cstep_announced c e : announced_inv c -> announced_inv (fst (cstep c e)).
+Proof.
+  unfold announced_inv, cl_connected. intro H.
+  destruct e as [r|p|a ok]; cbn.
+  - exact H.
+  - destruct (cl_cur c) eqn:E; cbn; [discriminate|rewrite E; exact H].
+  - destruct ok; cbn; [reflexivity|discriminate].
+Qed.
+
+Lemma crun_announced evs : forall c, announced_inv c -> announced_inv (fst (crun c evs)).
+Proof.
+  induction evs as [|e evs IH]; intros c H; cbn; [exact H|].
+  pose proof (cstep_announced c e H) as H1.
+  destruct (cstep c e) as [c' out]. specialize (IH c' H1).
+  destruct (crun c' evs) as [cf rest]. exact IH.
+Qed.
+
+Theorem registered_announced evs :
+  cl_connected (fst (crun cinit evs)) = true -> cl_tm (fst (crun cinit evs)) = true.
+Proof. apply (crun_announced evs cinit). unfold announced_inv. cbn. discriminate. Qed.
+
+(* a failed announcement leaves nothing registered *)
+Lemma failed_announcement_not_registered c a :
+  cl_connected (fst (cstep c (CReconnect a false))) = false
+  /\ cl_all (fst (cstep c (CReconnect a false))) = cl_all c.
+Proof. cbn. auto. Qed.
